@@ -300,11 +300,19 @@ int factor_pollard_pm1_method(const Ptr<RCP<const Integer>> &f,
     int ret_val = 0;
     integer_class rop, nm4, c;
 
+    if (n.as_integer_class() < 4)
+        throw SymEngineException(
+            "Require n > 3 and B > 2 to use Pollard's p-1 method");
+
     mp_randstate state;
     nm4 = n.as_integer_class() - 4;
 
     for (unsigned i = 0; i < retries and ret_val == 0; ++i) {
-        state.urandomint(c, nm4);
+        // c in [2, n - 3]; for n == 4 the only candidate is 2
+        if (nm4 > 0)
+            state.urandomint(c, nm4);
+        else
+            c = 0;
         c += 2;
         ret_val = _factor_pollard_pm1_method(rop, n.as_integer_class(), c, B);
     }
@@ -351,6 +359,8 @@ int factor_pollard_rho_method(const Ptr<RCP<const Integer>> &f,
 {
     int ret_val = 0;
     integer_class rop, nm1, nm4, a, s;
+    if (n.as_integer_class() < 5)
+        throw SymEngineException("Require n > 4 to use pollard's-rho method");
     mp_randstate state;
     nm1 = n.as_integer_class() - 1;
     nm4 = n.as_integer_class() - 4;
